@@ -40,7 +40,7 @@ for fam in php5 php7; do
 done
 
 # the rewritten command-line tool for the schedule exploration of C02 C06 C11 C16 (a tool that cannot be rewritten is skipped with a note)
-case "$ID" in C02|C06|C11|C16) "$V/tools/clibuild.sh" ;; esac
+case "$ID" in C02|C06|C11|C14|C16) "$V/tools/clibuild.sh" ;; esac
 
 (cd "$MC" && go build -overlay "$B/overlay.json" -o "$B/check" ./cmd/check) >"$B/build.log" 2>&1 || { cat "$B/build.log" >&2; fail "go build failed (the tree may not compile)"; }
 if [ "$ID" = C11 ] || [ "$ID" = C18 ]; then
